@@ -6,6 +6,12 @@ see 'observation:' counters), calls the real operators (==, <=, hash, union, int
  (a) the order / lattice laws stated by the property, in terms of the library's own == and <=, and
  (b) agreement of <=, union, intersection and cross-version comparison with the set model vk.ref.lattice.
 Kinds logged from the library (module constants, example problems, engines' supported kinds) join the generated pool.
+
+History cases: a kind spec may carry a *script* (constructor arguments + a sequence of set_<group>() / unset_<group>() calls
+interleaved with observations: <=, ==, hash, .version, union, intersection against other kinds). Building such a spec replays
+the script, so every judgement is made on the kind *as it is after its history*; its model is the set model of the raw
+features read from the live object (public accessor) - a kind with a history must obey every law exactly like a freshly built
+kind with the same raw features and declared version (judge_twin + all pair judgements).
 """
 from vk import env as _env  # noqa: F401
 from vk.core import rng_for, simple_plan, h
@@ -26,8 +32,10 @@ LEVEL_NOTE = (
 )
 RULE = (
     "a case = one pair (or chain triple) of kind specs (features, declared version in {None,1,2,3}); generated with a bias "
-    "to version-sensitive features, equal-up-to-deprecated twins, sub/supersets and chains; plus all pairs of kinds logged "
-    "from the library. evaluations = judged pairs + judged triples. distinct_nontrivial = distinct pairs of the same "
+    "to version-sensitive features, equal-up-to-deprecated twins, sub/supersets and chains; one style builds the first kind "
+    "through a history (set_/unset_ calls of features of rising versions with observations in between) and also judges it "
+    "against a fresh kind with the same raw features; plus all pairs of kinds logged "
+    "from the library. evaluations = judged pairs + judged triples + twin judgements. distinct_nontrivial = distinct pairs of the same "
     "version that are comparable but unequal, or equal with different raw feature sets, plus distinct cross-version pairs "
     "where the older kind is changed by the upgrade."
 )
@@ -37,11 +45,11 @@ ASSUMPTIONS = [
     "side effects of comparisons on their operands, and the derived operators <, >, >=, are not part of the statement",
 ]
 
-N_PAIRS = {"quick": 24000, "thorough": 320000}
+N_PAIRS = {"quick": 20000, "thorough": 320000}
 
 
 def plan(tier, seed):
-    return simple_plan(PROPERTY, tier, seed, N_PAIRS["quick"], N_PAIRS["thorough"], shards_quick=16, shards_thorough=16)
+    return simple_plan(PROPERTY, tier, seed, N_PAIRS["quick"], N_PAIRS["thorough"], shards_quick=8, shards_thorough=16)
 
 
 # ------------------------------------------------------------------------------------------------------------------
@@ -51,8 +59,58 @@ def plan(tier, seed):
 def mk(spec):
     from unified_planning.model.problem_kind import ProblemKind
 
+    if len(spec) == 3:
+        k = run_script(spec[1], spec[2])
+        if tuple(sorted(k.features)) != spec[0]:
+            raise RuntimeError(f"replaying a kind history is not deterministic: {spec!r} -> {sorted(k.features)}")
+        return k
     feats, ver = spec
     return ProblemKind(list(feats), version=ver)
+
+
+def run_script(declared, script):
+    """Builds a kind through its history: constructor, then set_/unset_ calls and observations (results ignored)."""
+    from unified_planning.model.problem_kind import ProblemKind
+
+    init, ops = script
+    k = ProblemKind(list(init), version=declared)
+    for op in ops:
+        t = op[0]
+        if t == "set":
+            getattr(k, "set_" + op[1])(op[2])
+        elif t == "unset":
+            getattr(k, "unset_" + op[1])(op[2])
+        elif t == "hash":
+            hash(k)
+        elif t == "version":
+            k.version
+        elif t == "self-le":
+            k <= k
+        elif t == "le":
+            k <= mk(op[1])
+        elif t == "ge":
+            mk(op[1]) <= k
+        elif t == "eq":
+            k == mk(op[1])
+        elif t == "union":
+            k.union(mk(op[1]))
+        elif t == "intersection":
+            k.intersection(mk(op[1]))
+        else:
+            raise RuntimeError(f"unknown history op {op!r}")
+    return k
+
+
+def history_spec(declared, script):
+    """Spec of a kind with a history: (raw features NOW, read from the live object; declared version; script)."""
+    k = run_script(declared, script)
+    return (tuple(sorted(k.features)), declared, script)
+
+
+def groups():
+    from unified_planning.model import problem_kind as pk
+
+    return {f: g.lower() for g, l in sorted(pk.FEATURES.items()) for f in l}
 
 
 def model(spec):
@@ -111,9 +169,96 @@ def sp(feats, ver):
     return (tuple(sorted(feats)), ver)
 
 
-def gen_pair(rng, feats_all):
+OBS = ["le", "ge", "eq", "union", "intersection", "hash", "version", "self-le"]
+
+
+def gen_history(rng, feats_all, res):
+    """-> (declared version, script): features of rising versions are set (some unset again) with observations in between."""
+    grp = groups()
+    declared = None if rng.random() < 0.8 else rng.choice([1, 2, 3])
+    cap = declared or L.LATEST
+    by_level = {v: [f for f in feats_all if L.added(f) == v] for v in range(1, L.LATEST + 1)}
+    init = set()
+    if rng.random() < 0.4:
+        init = {f for f in gen_features(rng, feats_all) if L.added(f) <= (1 if rng.random() < 0.7 else cap)}
+    cur = set(init)
+    ops = []
+    observed_at = None  # version the kind had when it was last observed
+    flags = set()
+    lvl = 1 if rng.random() < 0.8 else rng.randint(1, cap)
+    for _ in range(rng.randint(2, 4)):
+        # -- mutate
+        for _ in range(rng.randint(1, 3)):
+            u = rng.random()
+            if u < 0.2 and cur:
+                newest = max(L.added(f) for f in cur)
+                pool = sorted(f for f in cur if L.added(f) == newest) if rng.random() < 0.7 else sorted(cur)
+                f = rng.choice(pool)
+                ops.append(("unset", grp[f], f))
+                cur.discard(f)
+            else:
+                pool = by_level[lvl] if u < 0.75 else [f for f in HOT if L.added(f) <= lvl]
+                f = rng.choice(pool)
+                ops.append(("set", grp[f], f))
+                cur.add(f)
+            now = L.version_of(cur, declared)
+            if observed_at is not None and now > observed_at:
+                flags.add("history:version_rises_after_observation")
+                observed_at = now
+            if observed_at is not None and now < observed_at:
+                flags.add("history:version_falls_after_observation")
+                observed_at = now
+        # -- observe
+        v = L.version_of(cur, declared)
+        for _ in range(rng.randint(0, 2)):
+            t = rng.choice(OBS)
+            if t in ("hash", "version", "self-le"):
+                ops.append((t,))
+            else:
+                u = rng.random()
+                if u < 0.35:
+                    o = sp({f for f in cur if rng.random() < 0.7}, v)
+                elif u < 0.55:
+                    o = sp((), rng.randint(1, L.LATEST))
+                elif u < 0.8:
+                    fs = {f for f in cur if rng.random() < 0.7} | {f for f in gen_features(rng, feats_all) if L.added(f) <= v}
+                    o = sp(fs, pick_version(rng, fs, prefer=v))
+                else:
+                    fs = gen_features(rng, feats_all)
+                    o = sp(fs, pick_version(rng, fs))
+                ops.append((t, o))
+            observed_at = v
+            flags.add("history:obs:" + t)
+        if lvl < cap and rng.random() < 0.75:
+            lvl += 1
+    if declared is None:
+        flags.add("history:unversioned")
+    for f in sorted(flags):
+        res.count(f)
+    return declared, (tuple(sorted(init)), tuple(ops))
+
+
+def gen_pair(rng, feats_all, res=None):
     """-> (spec_a, spec_b, style)"""
-    style = rng.choice(["random", "twin", "subset", "subset", "cross", "cross", "same-version-random"])
+    style = rng.choice(["random", "twin", "subset", "subset", "cross", "cross", "same-version-random", "history"])
+    if style == "history":
+        declared, script = gen_history(rng, feats_all, res)
+        sa = history_spec(declared, script)
+        a, va = set(sa[0]), declared
+        ea = L.version_of(a, va)
+        u = rng.random()
+        if u < 0.4:
+            b = {f for f in a if rng.random() < 0.8} | ({f for f in gen_features(rng, feats_all) if L.added(f) <= ea} if rng.random() < 0.5 else set())
+            vb = ea if L.version_of(b, None) != ea or rng.random() < 0.6 else None
+        elif u < 0.8:
+            b = {f for f in a if rng.random() < 0.8 and L.added(f) < ea} | ({f for f in gen_features(rng, feats_all) if L.added(f) < ea} if rng.random() < 0.5 else set())
+            vb = pick_version(rng, b)
+        else:
+            b = gen_features(rng, feats_all)
+            vb = pick_version(rng, b)
+        if rng.random() < 0.5:
+            return sp(b, vb), sa, style
+        return sa, sp(b, vb), style
     a = gen_features(rng, feats_all)
     va = pick_version(rng, a)
     ea = L.version_of(a, va)
@@ -168,6 +313,12 @@ class Ctx:
 
 
 def show(spec):
+    if len(spec) == 3:
+        init, ops = spec[2]
+        txt = "; ".join(
+            f"k.{o[0]}_{o[1]}({o[2]!r})" if o[0] in ("set", "unset") else (o[0] if len(o) == 1 else f"{o[0]} {show(o[1])}") for o in ops
+        )
+        return f"[k = ProblemKind({list(init)}, version={spec[1]}); {txt} -> features now {list(spec[0])}]"
     return f"ProblemKind({list(spec[0])}, version={spec[1]})"
 
 
@@ -363,6 +514,47 @@ def _judge_pair(sa, sb, ma, mb, cx, uppers, w):
     return bad
 
 
+def judge_twin(sh, cx):
+    """A kind with a history must be indistinguishable from a fresh kind with the same raw features and declared version."""
+    from unified_planning.model.problem_kind import ProblemKind
+
+    res = cx.res
+    res.mon()
+    res.case()
+    res.count("history_twins_judged")
+    sf = sh[:2]
+    w = dict(a=show(sh), b=show(sf))
+    try:
+        lv, fv = mk(sh).version, mk(sf).version
+        if lv != fv:
+            cx.viol("history:version-differs-from-fresh-kind", f"{show(sh)} has version {lv}; a fresh kind with the same features has version {fv}", expected=fv, observed=lv, **w)
+            return True
+        if hash(mk(sh)) != hash(mk(sf)):
+            cx.viol("history:hash-differs-from-fresh-kind", f"{show(sh)} hashes differently from a fresh kind with the same features", **w)
+            return True
+        if not (mk(sh) == mk(sf)) or not (mk(sf) == mk(sh)):
+            cx.viol("history:not-equal-to-fresh-kind", f"{show(sh)} is not == a fresh kind with the same features", **w)
+            return True
+        if not lib_le(sh, sf) or not lib_le(sf, sh) or not lib_le(sh, sh):
+            cx.viol("history:not-le-fresh-kind", f"{show(sh)} and a fresh kind with the same features are not mutually <=", **w)
+            return True
+        probes = [sp((), v) for v in range(1, L.LATEST + 1)] + [spec_of(mk(sf).union(ProblemKind(version=L.LATEST)))]
+        for so in probes:
+            for op in ("union", "intersection"):
+                r1, r2 = spec_of(getattr(mk(sh), op)(mk(so))), spec_of(getattr(mk(sf), op)(mk(so)))
+                r3, r4 = spec_of(getattr(mk(so), op)(mk(sh))), spec_of(getattr(mk(so), op)(mk(sf)))
+                if r1 != r2 or r3 != r4:
+                    cx.viol(f"history:{op}-differs-from-fresh-kind", f"{op} of {show(sh)} with {show(so)} is {show(r1)} / {show(r3)}; for a fresh kind with the same features it is {show(r2)} / {show(r4)}", **w)
+                    return True
+            if lib_le(sh, so) != lib_le(sf, so) or lib_le(so, sh) != lib_le(so, sf):
+                cx.viol("history:le-differs-from-fresh-kind", f"{show(sh)} compares with {show(so)} differently from a fresh kind with the same features", c=show(so), **w)
+                return True
+    except _env.INTERNAL_EXC as e:
+        cx.viol(f"history:operator-raises:{type(e).__name__}", f"an operator raised {e!r} on {show(sh)}", **w)
+        return True
+    return False
+
+
 def upgraded(spec, tgt):
     from unified_planning.model.problem_kind import ProblemKind
 
@@ -390,9 +582,18 @@ def judge_triple(sa, sb, sc, cx):
 
 def run_case(key, tier, res, feats_all):
     rng = rng_for(key)
-    sa, sb, style = gen_pair(rng, feats_all)
-    res.count("style:" + style)
     cx = Ctx(res, key, tier)
+    try:
+        sa, sb, style = gen_pair(rng, feats_all, res)
+    except _env.INTERNAL_EXC as e:  # only the replay of a history calls the library while generating
+        res.mon()
+        res.case()
+        cx.viol(f"history:operator-raises:{type(e).__name__}", f"building a kind through set_/unset_ calls and observations raised {e!r}")
+        return
+    res.count("style:" + style)
+    for s in (sa, sb):
+        if len(s) == 3 and judge_twin(s, cx):
+            return
     ma, mb = model(sa), model(sb)
     uppers = []
     if ma.version == mb.version:
@@ -496,7 +697,11 @@ def thresholds(m):
         ("upgrade_monotonicity_checked", 1000),
         ("chains_checked", 500),
         ("logged_pairs", 100),
-    ]
+        ("history_twins_judged", 1000),
+        ("history:unversioned", 800),
+        ("history:version_rises_after_observation", 400),
+        ("history:version_falls_after_observation", 50),
+    ] + [("history:obs:" + t, 100) for t in OBS]
     for k, n in need:
         if c.get(k, 0) < n:
             out.append(f"fewer than {n} observations of class {k} ({c.get(k, 0)})")
